@@ -375,6 +375,9 @@ func (doc *T) derefHeaders(hs Headers, refNameResolver RefNameResolver, parentIs
 	for _, name := range componentNames(hs) {
 		h := hs[name]
 		isExternal := doc.addHeaderToSpec(h, refNameResolver, parentIsExternal)
+		if h == nil || h.Value == nil {
+			continue
+		}
 		if doc.isVisitedHeader(h.Value) {
 			continue
 		}
@@ -392,6 +395,9 @@ func (doc *T) derefExamples(es Examples, refNameResolver RefNameResolver, parent
 func (doc *T) derefContent(c Content, refNameResolver RefNameResolver, parentIsExternal bool) {
 	for _, name := range componentNames(c) {
 		mediatype := c[name]
+		if mediatype == nil {
+			continue
+		}
 		isExternal := doc.addSchemaToSpec(mediatype.Schema, refNameResolver, parentIsExternal)
 		if mediatype.Schema != nil {
 			doc.derefSchema(mediatype.Schema.Value, refNameResolver, isExternal || parentIsExternal)
@@ -399,6 +405,9 @@ func (doc *T) derefContent(c Content, refNameResolver RefNameResolver, parentIsE
 		doc.derefExamples(mediatype.Examples, refNameResolver, parentIsExternal)
 		for _, name := range componentNames(mediatype.Encoding) {
 			e := mediatype.Encoding[name]
+			if e == nil {
+				continue
+			}
 			doc.derefHeaders(e.Headers, refNameResolver, parentIsExternal)
 		}
 	}
@@ -446,13 +455,16 @@ func (doc *T) derefRequestBody(r RequestBody, refNameResolver RefNameResolver, p
 func (doc *T) derefPaths(paths map[string]*PathItem, refNameResolver RefNameResolver, parentIsExternal bool) {
 	for _, name := range componentNames(paths) {
 		ops := paths[name]
+		if ops == nil {
+			continue
+		}
 		pathIsExternal := isExternalRef(ops.Ref, parentIsExternal)
 		// inline full operations
 		ops.Ref = ""
 
 		for _, param := range ops.Parameters {
 			isExternal := doc.addParameterToSpec(param, refNameResolver, pathIsExternal)
-			if param.Value != nil {
+			if param != nil && param.Value != nil {
 				doc.derefParameter(*param.Value, refNameResolver, pathIsExternal || isExternal)
 			}
 		}
@@ -475,7 +487,7 @@ func (doc *T) derefPaths(paths map[string]*PathItem, refNameResolver RefNameReso
 			doc.derefResponses(op.Responses, refNameResolver, pathIsExternal)
 			for _, param := range op.Parameters {
 				isExternal := doc.addParameterToSpec(param, refNameResolver, pathIsExternal)
-				if param.Value != nil {
+				if param != nil && param.Value != nil {
 					doc.derefParameter(*param.Value, refNameResolver, pathIsExternal || isExternal)
 				}
 			}
